@@ -162,6 +162,40 @@ def long_rows(rates, accums):
     return rows
 
 
+def power_window_rows():
+    """Long fast moves on a product lattice around powers of two *with the neighbours at
+    distance 2 and 3* (rate = 2^a + d, T = 2^c + e): the places where rate * T just misses or
+    just crosses a power of two, i.e. where a working precision sized from the operands' bit
+    lengths has no room for the carry of the sum.  Odd accelerations, explicit accumulators."""
+    rows = []
+    for a_exp in (26, 27, 29, 30, 31):
+        for d_r in (-3, -2, -1, 0, 1):
+            rate = (1 << a_exp) + d_r
+            for c_exp in (22, 23, 24, 26, 31):
+                for d_t in (-3, -2, -1, 0, 1):
+                    ticks = (1 << c_exp) + d_t
+                    for accel in (-3, -1, 1, 3):
+                        for sgn in (1, -1):
+                            if not lt_in_domain(sgn * rate, accel, ticks):
+                                continue
+                            for accum in (1, 2000000001, TWO31 - 1):
+                                rows.append((sgn * rate, accel, ticks, accum))
+    return rows
+
+
+def _window_chunk(rows):
+    part = core.Part()
+    for rate, accel, ticks, accum in rows:
+        total = lt_total_closed(rate, accel, accum, ticks)
+        for clause, msg in check_case(rate, accel, ticks, accum, None, total):
+            part.violation(f"{clause}:{rate},{accel},{ticks},{accum},None", msg,
+                           _case(rate, accel, ticks, accum, None))
+        part.count("impl_calls", 2)
+        part.count("long_moves")
+        part.count("power_window_moves")
+    return part
+
+
 def _long_chunk(rows):
     part = core.Part()
     _ebb_calc, _ebb_motion, mpmath = _lib()
@@ -190,6 +224,7 @@ def run(ctx):
     part = core.fan_out(ctx, _rows_chunk, chunks)
     longs = long_rows(rates, accums)
     part.merge(core.fan_out(ctx, _long_chunk, core.split(longs, 32)))
+    part.merge(core.fan_out(ctx, _window_chunk, core.split(power_window_rows(), 32)))
     from .. import calcseq                 # pylint: disable=import-outside-toplevel
     part.merge(calcseq.explore(ctx, ['move_dist_lt']))
     cnt = part.counters
